@@ -39,13 +39,17 @@ def gen_cases(tier, seed):
             continue
         if 'read-all' in inv.name:
             continue
-        for tol in (1, 0):
-            for ign in (1, 0):
+        from harness.callreg_ext import DIDS
+        # DID codec tables: the shared one, and the same with a 'default' codec (any DID then has a codec: zeros must still
+        # read as padding because DID 0x0000 itself is not configured)
+        tables = [None] if inv.callid not in (22, 23, 29) else [None, DIDS + [(-1, 2)], DIDS + [(-1, 1)], DIDS + [(-1, 0)]]
+        for tol, ign, dt in [(t, i, d) for t in (1, 0) for i in (1, 0) for d in tables]:
+            if True:
                 cfgv = list(cl.DEFAULT_CFG)
                 for s, v in inv.cfg.items():
                     cfgv[s] = v
                 cfgv[cl.TOL_PAD], cfgv[cl.IGN_ZERO] = tol, ign
-                h0 = cl.H(cfgv)
+                h0 = cl.H(cfgv, dids=dt)
                 for _ in range(2 if tier == 'quick' else 20):
                     for reply, sd, rs, tag in respspec.gen(inv, h0.cfg, rnd):
                         if rs is None and inv.callid == 29 and inv.args[0] in (4, 0x18, 5, 6, 0x10, 0x19):
@@ -53,7 +57,7 @@ def gen_cases(tier, seed):
                         if rs is None:
                             continue
                         for n in range(0, 2 * rs + 2):
-                            c = cl.H(cfgv).call(inv.callid, inv.args, inv.blobs, [(10, reply + b'\x00' * n)]).case(5000, '%s / %s' % (name, tag))
+                            c = cl.H(cfgv, dids=dt).call(inv.callid, inv.args, inv.blobs, [(10, reply + b'\x00' * n)]).case(5000, '%s / %s' % (name, tag))
                             EXPECT[c.line()] = (sd, rs, n, inv.callid, inv.args[0] if inv.callid == 29 else None)
                             yield c
 
